@@ -25,6 +25,9 @@ import (
 // repeatRuns: further executions of every case after the three of oracle (b).
 const repeatRuns = 7
 
+// repeatBudget: no further repetition is started once a case has used this much time.
+const repeatBudget = 1500 * time.Millisecond
+
 // WRes is everything observed for one case.
 type WRes struct {
 	NewPanic string `json:"new_panic,omitempty"` // NewPlan panicked
@@ -78,6 +81,7 @@ func freshPlan(planText string) (p *asm.Plan, pan string) {
 func freshRoot(rootText string) map[string]any { return mustTree(rootText).(map[string]any) }
 
 func runCase(planText, rootText string) *WRes {
+	started := time.Now()
 	res := &WRes{}
 	p, pan := freshPlan(planText)
 	if pan != "" {
@@ -110,7 +114,9 @@ func runCase(planText, rootText string) *WRes {
 		res.Fresh, _ = execOnce(p2, freshRoot(rootText))
 		// determinism is a statement about every run: repeat the execution (fresh plan, fresh equal root);
 		// anything that follows Go's map iteration order shows within a few repetitions
-		for i := 0; i < repeatRuns && res.Repeat == ""; i++ {
+		// (bounded in time: a case whose executions are slow keeps the three runs of oracle b and gives the
+		// watchdog's time to them, not to the repetitions)
+		for i := 0; i < repeatRuns && res.Repeat == "" && time.Since(started) < repeatBudget; i++ {
 			if pr, panr := freshPlan(planText); panr == "" && pr != nil {
 				if out, _ := execOnce(pr, freshRoot(rootText)); out != res.Fresh {
 					res.Repeat = out
